@@ -27,6 +27,9 @@ type corrParams struct {
 	skip   []int // per-node skips
 	tail   bool  // streams: the handler returns (or fails) right after its last reply instead of waiting for the script
 	resets int   // the stream of the last node is reset this many times during the call (events of the script)
+	// lateDone: the observers ask for Done() only once the call has completed (a program that first watches
+	// levels and looks at Done afterwards); before that, Done is not touched at all
+	lateDone bool
 }
 
 func (p corrParams) name() string {
@@ -43,6 +46,9 @@ func (p corrParams) name() string {
 	}
 	if p.resets > 0 {
 		f += fmt.Sprintf("/resets-of-last-node=%d", p.resets)
+	}
+	if p.lateDone {
+		f += "/done-first-asked-after-completion"
 	}
 	return fmt.Sprintf("corr/%s/n=%d/k=%d/%s/levels=%v/doneAt=%d/cancel=%v/skip=%v", p.kind, p.n, p.k, f, p.levels, p.doneAt, p.cancel, p.skip)
 }
@@ -154,7 +160,9 @@ func corrHistory(p corrParams) func() {
 			case reply != mVal:
 				fail("C11/value", key, "%s: %s: Get shows %v (%T), the quorum function returned %v (%T) for the published level", p.name(), where, reply, reply, mVal, mVal)
 			}
-			if closedNow(corr.Done()) != mDone {
+			if p.lateDone && !mDone {
+				// Done() is not asked for yet
+			} else if closedNow(corr.Done()) != mDone {
 				fail("C11/done", key, "%s: %s: Done released=%v, reference model done=%v", p.name(), where, !mDone, mDone)
 			}
 			for _, wt := range watchers {
@@ -431,6 +439,17 @@ func corrInstances(tier string) []Instance {
 							}
 						}
 					}
+				}
+			}
+		}
+	}
+	// Done() first asked for after the call has completed, for every way of completing
+	for _, kind := range []string{"Correctable", "CorrectableCustomReturnType", "CorrectableStream", "CorrectablePerNodeArg"} {
+		for _, d := range []int{0, 1, 2} {
+			for _, cancel := range []bool{false, true} {
+				for _, fails := range [][]bool{{false, false}, {false, true}, {true, true}} {
+					p := corrParams{kind: kind, n: 2, k: 1, fails: fails, levels: []int{1, 2, 3}, doneAt: d, cancel: cancel, lateDone: true}
+					out = append(out, Instance{Name: p.name(), Bound: 1, Root: corrHistory(p)})
 				}
 			}
 		}
